@@ -97,6 +97,24 @@ func zzOp(op int, tmpl, full *ast.DataMessage) (string, []byte, []string) {
 			out += rt.N("ok", rt.Ite(ok, 1, 0)) + rt.N("nil", rt.Ite(m == nil, 1, 0)) + " "
 		}
 		return out, nil, nil
+	case 12: // a deeply nested message (single-element lists) through the decoder
+		var in []byte
+		depth := 1500
+		if rt.IsSymbolic() {
+			depth = 120 // the engine's certificate does not depend on the depth; the native goroutines decode 1500 levels
+		}
+		for i := 0; i < depth; i++ {
+			in = append(in, 0x01, 0x01)
+		}
+		in = append(in, 0x01, 0x00)
+		n := len(in) + 10
+		in = append([]byte{byte(n >> 24), byte(n >> 16), byte(n >> 8), byte(n), 0, 1, 0x81, 1, 0, 0, 0, 0, 0, 1}, in...)
+		m, ok := hsms.Parse(in)
+		rt.Assert(ok, "ops:decode-deep-ok")
+		if !ok {
+			return "rejected", nil, nil
+		}
+		return "", m.ToBytes(), nil
 	case 11: // rejected SML text
 		msgs, errs, warns := Parse("S1F1 W <L <U1 300> <A 'x>\n.\nS2F1 <Q>.")
 		return rt.N("n", len(msgs)), nil, append(errs, warns...)
@@ -156,7 +174,7 @@ func ZZ_C17_history() {
 	rt.Assume(rt.And(txt[0] == 'a', txt[1] == 'b')) // the text content is not what is explored here
 	tmpl, full := zzSharedObjects()
 	s0, b0, v0 := zzOp(b, tmpl, full)
-	a := rt.Choice("a", 12)
+	a := rt.Choice("a", 13)
 	// natively the pair is repeated (what a recycled object carries over depends on the runtime)
 	for r := 0; r < rt.Iterations(16); r++ {
 		zzOp(a, tmpl, full)
